@@ -118,6 +118,8 @@ type c03World struct {
 	snaps []string
 	tsnap map[int]string
 	esnap string
+	// changed: a structural change of a render tree or of the engine configuration was observed
+	changed bool
 }
 
 func c03NewWorld(nB int, ts []int) *c03World {
@@ -168,17 +170,20 @@ func (w *c03World) step(r *explore.Rec, t, b int, hist string) bool {
 			w.snaps[i] = s
 		}
 	}
-	// (I3) parsed templates and engine configuration are unchanged
+	// (I3) structural view of the parsed templates and of the engine configuration. The statement
+	// defines "never changes the parsed template" operationally (re-rendering gives identical output,
+	// which I2 checks on every step), so a structural change alone - a correct memoisation, say - is
+	// not a violation; it is counted and shows up as additional world states in the evidence.
 	for tt, tpl := range w.tpls {
 		if h := explore.SnapshotHash(tpl.GetRoot()); h != w.tsnap[tt] {
-			r.Violation(fmt.Sprintf("I3:template-modified:t%d", tt), desc(), "render tree unchanged", "changed")
-			ok = false
+			r.Count("structural_changes_of_render_trees", 1)
+			w.changed = true
 			w.tsnap[tt] = h
 		}
 	}
 	if h := explore.SnapshotHash(w.eng); h != w.esnap {
-		r.Violation("I3:engine-modified", desc(), "engine configuration unchanged", "changed")
-		ok = false
+		r.Count("structural_changes_of_engine_configuration", 1)
+		w.changed = true
 		w.esnap = h
 	}
 	return ok
@@ -239,7 +244,7 @@ func c03Families(tier string) []explore.Family {
 			for _, s := range w.snaps {
 				sb.WriteString(s)
 			}
-			r.State(explore.SnapshotHash(sb.String()) + "/" + w.esnap[:0])
+			r.State(explore.SnapshotHash(sb.String()) + fmt.Sprintf("/structural-change=%v", w.changed))
 			r.Class("len" + fmt.Sprint(d) + "/" + c03Solo(steps[d-1][0], steps[d-1][1])[:3])
 			if r.WantSample() {
 				r.Sample(map[string]any{"history": hist, "last_result": trunc80(c03Solo(steps[d-1][0], steps[d-1][1]))})
@@ -274,7 +279,7 @@ func init() {
 		Level: "model_checking",
 		Rule: "explicit-state search over histories of renders R(t,b) on one shared world (one engine, templates parsed once, binding environments built once and shared by reference): all histories of length <=2 over 16 templates x 3 environments (quick) / <=3 over 26 x 4 (thorough), each replayed on a fresh world, plus 40-step round-robin histories from every starting operation; " +
 			"templates cover assign of a bound name, capture, shadowing loops, cycle groups, nested loops with break, every array filter on bound arrays (incl. aliased sub-slices and spare capacity), include, a render failing half-way, tablerow, typed slices, structs, pointers, Drops, MapSlice, ranges; " +
-			"invariants after every step: deep snapshot of every environment unchanged (slices up to capacity, unexported fields, aliasing), result equals the solo result on a fresh engine/parse/bindings, render trees and engine configuration unchanged; state = canonical world snapshot after the history (one state on a correct tree); transition = one render",
+			"invariants after every step: deep snapshot of every environment unchanged (slices up to capacity, unexported fields, aliasing), result equals the solo result on a fresh engine/parse/bindings; structural changes of render trees / engine configuration are recorded (not alarms: the statement defines template immutability through re-render equality); state = canonical world snapshot after the history; transition = one render",
 		Assumptions: []string{
 			"ToLiquid call counts of Drops are not part of the snapshot (the README allows any number of calls)",
 			"closure-captured variables are not visible to the structural snapshot; they are covered through invariant I2 and by C04's race pass",
